@@ -392,9 +392,67 @@ def check_C09(run):
             if nv <= 25:
                 run.violation("parse-back", f"feeding the printed string {st} back does not select the move {mv}",
                               {"frc": frc, "fen": fen, "string": st, "after_parsing": a, "after_the_move": b})
-    run.cov["traces_validated_against_impl"] = len(reqs) + len(r2)
+    # through the command loop of the binary: every move `go split 1` prints after `position (startpos|fen F) moves ...`
+    # is accepted when appended to the same command (no unknown-move diagnostic, one more key in the history)
+    import re as _re
+    import props_proc
+    rel = vlib.build_engine("release")
+    START = "rnbqkbnr/pppppppp/8/8/8/8/PPPPPPPP/RNBQKBNR w KQkq - 0 1"
+    pre960 = ["e2e4 e7e5 g1f3 b8c6 f1c4 g8f6", "e2e4 e7e5 g1f3 b8c6 f1c4 g8f6 e1h1 f8c5 d2d3",
+              "d2d4 d7d5 b1c3 b8c6 c1f4 c8f5 d1d2 d8d7", "d2d4 d7d5 b1c3 b8c6 c1f4 c8f5 d1d2 d8d7 e1a1", ""]
+    prestd = [x.replace("e1h1", "e1g1").replace("e1a1", "e1c1") for x in pre960]
+    pl = []
+    for frc in ("0", "1"):
+        for pre in (pre960 if frc == "1" else prestd):
+            pl.append((frc, "startpos", pre))
+            pl.append((frc, "fen " + START, pre))
+        for m in rng.sample([x for x in meta if x[0] == frc], 6 if th else 3):
+            pl.append((frc, "fen " + m[1], ""))
+    def head(frc, where, pre, extra=""):
+        mv = (pre + " " + extra).strip()
+        return (["setoption name UCI_Chess960 value true"] if frc == "1" else []) + ["isready", "position " + where + (" moves " + mv if mv else "")]
+    first = vlib.par_map(lambda c: props_proc.run_engine(rel, head(*c) + ["go split 1", "quit"], timeout=60), pl)
+    second_jobs = []
+    for c, (out, err, rc, to) in zip(pl, first):
+        printed = [l.split(" ")[0] for l in out.split("\n") if _re.match(r"^[a-h][1-8][a-h][1-8][nbrq]? \d+$", l)]
+        run.note_case(("split",) + c, "process-level", nontrivial=any(t in ("e1h1", "e1a1", "e8h8", "e8a8", "e1g1", "e1c1") for t in printed))
+        if not to and rc == 0 and not printed and "\nnodes 0" in out:
+            continue            # no legal moves
+        if to or rc != 0 or not printed:
+            nv += 1
+            run.violation("panic", "the engine printed no moves for go split 1", {"script": ["uci"] + head(*c) + ["go split 1"], "rc": rc, "stderr": err[-300:]})
+            continue
+        npre = len(c[2].split()) if c[2] else 0
+        second_jobs.append((c, printed, npre))
+    def second(job):
+        c, printed, npre = job
+        bad = []
+        sc = []
+        for t in printed:
+            sc += head(c[0], c[1], c[2], t)[-1:] + ["history"]
+        out, err, rc, to = props_proc.run_engine(rel, head(c[0], c[1], c[2])[:-1] + sc + ["quit"], timeout=120)
+        if to or rc != 0:
+            return ["engine died"]
+        for t in printed:
+            if ("info string unknown move " + t) in out:
+                bad.append(t)
+        nk = sum(1 for l in out.split("\n") if l.startswith("0x"))
+        if nk != len(printed) * (npre + 2) and not bad:
+            bad.append(f"history keys {nk} != {len(printed)} x {npre + 2}")
+        return bad
+    sres = vlib.par_map(second, second_jobs)
+    for (c, printed, npre), bad in zip(second_jobs, sres):
+        run.note_case(("split-back",) + c, "process-level")
+        if bad:
+            nv += 1
+            if nv <= 25:
+                run.violation("parse-back", f"through the command loop: printed move(s) {bad[:6]} are not accepted when fed back",
+                              {"script": ["uci"] + head(c[0], c[1], c[2], str(bad[0])) + ["print"],
+                               "repro": "printf 'uci\\n" + "\\n".join(head(c[0], c[1], c[2], str(bad[0])) + ["print"]) + "\\n' | " + rel})
+    run.cov["traces_validated_against_impl"] = len(reqs) + len(r2) + len(pl)
     run.sample({"request": reqs[0], "implementation": impl[0][:300]})
-    run.cov["explanation"] = "square-name injectivity and promotion-letter lemmas proved; shape/injectivity/round-trip on all legal moves checked above"
+    run.cov["explanation"] = ("square-name injectivity and promotion-letter lemmas proved; shape/injectivity/round-trip on all legal moves checked above, "
+                              "also through the binary's command loop with `position startpos` and `position fen` in both modes")
 
 
 def check_C05(run):
@@ -515,6 +573,17 @@ def check_C05(run):
             if nv <= 25:
                 run.violation("position-moves", bad, {"request": r, "implementation": a, "diagnostics": diag, "specification": s,
                                                       "repro": "printf '" + r.replace("\t", "\\t") + "\\n' | .build/cargo/release/rawr_harness /dev/stdout"})
+        elif kv(a).get("keys") != kv(b.split(" diag=")[0]).get("keys") and kv(a).get("hash") == kv(b.split(" diag=")[0]).get("hash"):
+            # the final position (and its key) agree with the model, the recorded history does not: entry k must be the key of
+            # the k-th position reached (theorem C05_one_key_per_position + key = recomputed key on the model side)
+            nv += 1
+            ka, kb = kv(a).get("keys", "").split(","), kv(b.split(" diag=")[0]).get("keys", "").split(",")
+            k = next((i for i, (x, y) in enumerate(zip(ka, kb)) if x != y), min(len(ka), len(kb)))
+            if nv <= 25:
+                run.violation("position-moves", f"history entry {k} is not the key of position {k} of the game (implementation {ka[k] if k < len(ka) else '-'}, "
+                              f"key of that position {kb[k] if k < len(kb) else '-'})",
+                              {"request": r, "implementation": a, "model": b,
+                               "repro": "printf '" + r.replace("\t", "\\t") + "\\n' | .build/cargo/release/rawr_harness /dev/stdout"})
         elif a != b.split(" diag=")[0]:
             nv += 1
             if nv <= 25:
@@ -530,12 +599,28 @@ def check_C05(run):
     for fen, toks in (("r3k2r/8/8/8/8/8/8/R3K2R w KQkq - 0 1", ["e1h1", "e8a8"]), ("rk4r1/pppppppp/8/8/8/8/PPPPPPPP/RK4R1 b KQkq - 3 7", ["b8a8", "b1a1", "zzzz", "h7h5"]),
                       ("nrk2rbb/pppppppp/8/8/8/8/PPPPPPPP/NRK2RBB w KQkq - 0 1", ["g2g3", "g7g6", "h1g2", "h8g7", "c1f1", "c8f8"])):
         pcases.append(("1", fen, fen, toks, 0, 0))
+    # `position startpos moves ...` (the keyword, not a FEN) in both modes and both castling notations
+    START = "rnbqkbnr/pppppppp/8/8/8/8/PPPPPPPP/RNBQKBNR w KQkq - 0 1"
+    lines960 = ["e2e4 e7e5 g1f3 b8c6 f1c4 g8f6 e1h1 f8c5 d2d3 e8h8 c1g5 h7h6",
+                "d2d4 d7d5 b1c3 b8c6 c1f4 c8f5 d1d2 d8d7 e1a1 e8a8 f2f3 f7f6",
+                "g1f3 g8f6 g2g3 g7g6 f1g2 f8g7 e1h1 e8h8 d2d4 d7d5"]
+    std_of = {"e1h1": "e1g1", "e8h8": "e8g8", "e1a1": "e1c1", "e8a8": "e8c8"}
+    startpos_cases = set()
+    for ln in lines960:
+        toks = ln.split(" ")
+        for frcflag in ("0", "1"):
+            for notation in (0, 1):
+                tk = [std_of.get(t, t) if notation else t for t in toks]
+                for cut in (len(tk), rng.randrange(6, len(tk))):
+                    pcases.append((frcflag, START, START, tk[:cut], 0, 0))
+                    startpos_cases.add(len(pcases) - 1)
     pj, pspec = [], []
-    for c in pcases:
+    for ci, c in enumerate(pcases):
         frc = c[0] == "1"
+        where = "startpos" if ci in startpos_cases else "fen " + c[1]
         script = (["setoption name UCI_Chess960 value true"] if frc else []) + ["isready"] + \
                  (["ucinewgame"] if rng.random() < 0.6 or c[4] == 0 else []) + \
-                 ["position fen " + c[1] + ((" moves " + " ".join(c[3])) if c[3] else ""), "print", "history", "quit"]
+                 ["position " + where + ((" moves " + " ".join(c[3])) if c[3] else ""), "print", "history", "quit"]
         pj.append(script)
         pspec.append(f"posspec\t{c[0]}\t{c[1]}\t{' '.join(c[3])}")
     pres = vlib.par_map(lambda sc: props_proc.run_engine(rel, sc, timeout=60), pj)
@@ -637,7 +722,7 @@ def check_C17(run):
                 run.violation("model-mismatch", "evaluation differs from the model's", {"fen": f, "implementation": a[0], "model": b[0]}, found_input=False)
     run.cov["traces_validated_against_impl"] = len(reqs)
     run.sample({"fen": meta[0], "implementation": impl[0:5]})
-    run.cov["explanation"] = "eval_antisym, eval_reads_boards_only proved on the model (theorems listed); tie and bound checked above"
+    run.cov["explanation"] = "eval_antisym, eval_reads_boards_only, eval_bounded_on_D proved on the model (theorems listed); tie checked above, bound also observed on every case"
 
 
 # ====================================================================== C18
@@ -647,8 +732,9 @@ def check_C18(run):
     run.cov["rule"] = ("random operation sequences (store / lookup / clear / resize / fill indicator / length) on Hashtable<u64>, sizes 0..3 MB, "
                        "keys clustered to collide in slots, incl. lookups on an empty table (guarded panic): every output vs the model and "
                        "vs a dictionary specification (last value stored per slot since the last clear, truncated by resize); the "
-                       "TTEntry instantiation is exercised by every search check; non-trivial = sequence contains a resize or clear "
-                       "after a store")
+                       "TTEntry instantiation is exercised by every search check; boundary sequences on both Hashtable<u64> and "
+                       "Hashtable<TTEntry> (sizes 1..16 MB): slots 0..1001 filled then the fill indicator, stores in the last slots "
+                       "then clear / shrink / grow; non-trivial = sequence contains a resize or clear after a store")
     seqs = []
     for _ in range(400 if th else 60):
         ops = []
@@ -678,9 +764,65 @@ def check_C18(run):
                 ops.append("l")
         seqs.append(" ".join(ops))
     reqs = [f"tt\t8\t{s}" for s in seqs]
+    # boundary families, on both instantiations (u64 and the 24-byte TTEntry): the sampled prefix filled to and past
+    # its end (slots 0..999, 1000, 1001), and stores in the last slots of the table followed by clear / resize
+    bseqs = []
+    for es in (8, 24):
+        for mb in ((1, 2, 3, 16) if th else (1, 3, 16)):
+            ln = mb * 1024 * 1024 // es
+            k0 = rng.choice([0, ln, 5 * ln])
+            bseqs.append((es, f"r:{mb} A:{k0}:1001:7 h P:{k0}:1001 p:{k0 + 1000} c h P:{k0}:1001 l"))
+            bseqs.append((es, f"r:{mb} A:{k0}:999:3 h a:{k0 + 1000}:5 h a:{k0 + 999}:5 h a:{k0 + 1001}:5 h c h"))
+            tail = rng.choice([300, 1000, 5000])
+            bseqs.append((es, f"r:{mb} A:{ln - tail}:{tail}:9 P:{ln - tail}:{tail} h c P:{ln - tail}:{tail} P:0:2000 A:{ln - 3}:6:4 P:{ln - 3}:6 p:{ln - 1} p:{ln}"))
+            bseqs.append((es, f"r:{mb} A:{ln - tail}:{tail}:9 r:{max(mb - 1, 0)} l P:{ln - tail}:{tail} r:{mb} P:{ln - tail}:{tail} h"))
+    nv = 0
+    breq = [f"tt\t{es}\t{s}" for es, s in bseqs]
+    bi, _ = vlib.run_impl_par(breq)
+    bm = vlib.run_model_par(breq)
+    for (es, s), a, b in zip(bseqs, bi, bm):
+        run.note_case((es, s), "boundary", nontrivial=True)
+        # expected outputs from the specification: slot -> value dictionary
+        length, slots, want = 0, {}, []
+        for o in s.split(" "):
+            f = o.split(":")
+            if f[0] == "r":
+                length = int(f[1]) * 1024 * 1024 // es
+                slots = {k: v for k, v in slots.items() if k < length}
+                want.append("r")
+            elif length == 0 and f[0] in "aApP":
+                want.append("PANIC")
+            elif length == 0 and f[0] == "h":
+                want.append("-")
+            elif f[0] == "a":
+                slots[int(f[1]) % length] = int(f[2]); want.append("a")
+            elif f[0] == "A":
+                for j in range(int(f[2])):
+                    slots[(int(f[1]) + j) % length] = int(f[3])
+                want.append("A")
+            elif f[0] == "p":
+                want.append(str(slots.get(int(f[1]) % length, 0)))
+            elif f[0] == "P":
+                want.append(str(sum(1 for j in range(int(f[2])) if slots.get((int(f[1]) + j) % length, 0) != 0)))
+            elif f[0] == "c":
+                slots = {}; want.append("c")
+            elif f[0] == "h":
+                want.append(str(sum(1 for k, v in slots.items() if k < 1000 and v != 0)))
+            else:
+                want.append(str(length))
+        got = a.split(" | ")[0].split(" ")
+        if got != want:
+            nv += 1
+            k = next((i for i, (x, y) in enumerate(zip(got, want)) if x != y), 0)
+            run.violation("table-semantics", f"element size {es}: operation #{k + 1} ({s.split(' ')[k]}) answered {got[k] if k < len(got) else '?'}, "
+                          f"the last-stored-per-slot specification says {want[k]} (fill indicator must count slots 0..999 only; clear must empty every slot)",
+                          {"element_size": es, "operations": s, "implementation": got, "specification": want,
+                           "repro": "printf 'tt\\t" + str(es) + "\\t" + s + "\\n' | .build/cargo/release/rawr_harness /dev/stdout"})
+        elif a != b:
+            nv += 1
+            run.violation("model-mismatch", "outputs differ from the model's", {"element_size": es, "operations": s, "implementation": a[:300], "model": b[:300]}, found_input=False)
     impl, _ = vlib.run_impl_par(reqs)
     model = vlib.run_model_par(reqs)
-    nv = 0
     for s, a, b in zip(seqs, impl, model):
         ops = s.split(" ")
         nt = any(o[0] in "rc" for i, o in enumerate(ops) if any(x[0] == "a" for x in ops[:i]))
